@@ -584,11 +584,65 @@ fn c02(tier: Tier) -> i32 {
         }
         cases.push(c);
     }
+    // .. and the other formatter families (date, time, datetime, list, currency; default and `short` lengths): the
+    // string back-end and the view back-end assemble their output in different helpers
+    {
+        use vmodel::fmtspec::*;
+        let locales = ["en", "fr", "de", "bn"];
+        let picked: Vec<FmtCase> = all_cases()
+            .into_iter()
+            .filter(|c| matches!(c.family, "date" | "time" | "datetime" | "list" | "currency") && !c.text.contains("full") && !c.text.contains("long") && !c.text.contains("nonsense") && !c.text.contains("bogus"))
+            .filter(|c| !c.text.contains('(') || c.text.contains("short") || c.text.contains("medium") || c.family == "list" || c.family == "currency")
+            .collect();
+        let mut fam_seen: BTreeMap<&str, usize> = BTreeMap::new();
+        let picked: Vec<FmtCase> = picked
+            .into_iter()
+            .filter(|c| {
+                let e = fam_seen.entry(c.family).or_insert(0);
+                *e += 1;
+                *e <= tier.pick(4, 12)
+            })
+            .collect();
+        let mut p = Project::new(Config::simple("en", &locales));
+        for l in locales {
+            p.set_file(None, l, picked.iter().enumerate().map(|(i, c)| (format!("f{i}"), s(vec![text(&format!("[{l}]")), var_fmt("v", &format!(" {}", c.text))]))).collect());
+        }
+        let mut c = Case::new(&format!("c02_{}_fmt2", tier.name()), p);
+        c.probe.items.push_str(C18_ITEMS);
+        c.probe.items.push_str(CTX_ITEMS);
+        for (i, fc) in picked.iter().enumerate() {
+            let (sv, vv, dv): (String, String, String) = match fc.family {
+                "currency" => ("-1234.5f64".into(), "move || -1234.5f64".into(), "-1234.5".into()),
+                "date" => ("the_date()".into(), "move || the_date()".into(), "()".into()),
+                "time" => ("the_time()".into(), "move || the_time()".into(), "()".into()),
+                "datetime" => ("the_datetime()".into(), "move || the_datetime()".into(), "()".into()),
+                _ => ("[\"A\", \"B\", \"C\"]".into(), "move || [\"A\", \"B\", \"C\"]".into(), "&[\"A\", \"B\", \"C\"]".into()),
+            };
+            for l in locales {
+                let lv = locale_variant(l);
+                let direct = fc.direct.replace("$L", &format!("{l:?}")).replace("$V", &dv);
+                for fl in ALL_FLAVOURS {
+                    let mac = fl.macro_name();
+                    let call = match (fl.needs_ctx(), fl.is_view()) {
+                        (false, false) => format!("{mac}!({lv}, f{i}, v = {sv}).to_string()"),
+                        (false, true) => format!("html({mac}!({lv}, f{i}, v = {vv}))"),
+                        (true, false) => format!("{{ ctx().set_locale({lv}); {mac}!(ctx(), f{i}, v = {sv}).to_string() }}"),
+                        (true, true) => format!("{{ ctx().set_locale({lv}); html({mac}!(ctx(), f{i}, v = {vv})) }}"),
+                    };
+                    let id = c.next_id;
+                    c.next_id += 1;
+                    c.probe.stmts.push(format!("cmp({id}, || {call}, \"[{l}]\", {direct});"));
+                    c.expected.insert(id, Expect { probe: c.probe.name.clone(), what: format!("{fl:?} {} @{l}", fc.text), text: "^OK|^SKIP-ICU".into(), suffix: false });
+                }
+            }
+        }
+        cases.push(c);
+    }
     execute(&rep, "C02", cases);
     rep.nontriv(n_keys * m.locales.len() as u64);
     rep.sample(json!({"probe_call": "{ ctx().set_locale(Locale::de); let c = ctx(); let c = scope_i18n!(c, main); let c = scope_i18n!(c, g); t_string!(c, h.interp, x = \"«x»\", y = \"«y»\").to_string() }"}));
     let mut cov = serde_json::Map::new();
-    cov.insert("rule".into(), json!("project with one key of every kind (string, number, bool, interpolation, components, u8 range, f32 range, cardinal plural, ordinal plural, a plural and a range made of plain text only, foreign keys plain / with renamed count / with literal count) at top level and at depth 3, in two namespaces, three locales (de inherits fr, holds explicit nulls and gaps); every key x every locale x 9 flavours (td/t/tu x view/string/display) x scoping at every proper prefix (one step, chained one segment at a time, use_i18n_scoped!) x counts {0,1,2,5}, plus the const accessor chain for plain literals, plus t! / tu! views built under every other locale and rendered after the context moved to the locale in question, plus td! / t! / tu! views of count-driven keys whose count closure changes its value between building and rendering; context flavours run on a natively created I18nContext whose locale is set before each call; every record must equal the reference rendering (hence all flavours agree pairwise); a second project (en, bn, sv) whose keys carry number formatters (default, never, always, min2, spaced spelling): each of the 9 flavours x 7 values (positive, negative, zero, fractional, i32 / i64 / u8 typed) must equal the direct ICU4X call for the locale; quick tier thins view flavours under scoping"));
+    cov.insert("rule".into(), json!("project with one key of every kind (string, number, bool, interpolation, components, u8 range, f32 range, cardinal plural, ordinal plural, a plural and a range made of plain text only, foreign keys plain / with renamed count / with literal count) at top level and at depth 3, in two namespaces, three locales (de inherits fr, holds explicit nulls and gaps); every key x every locale x 9 flavours (td/t/tu x view/string/display) x scoping at every proper prefix (one step, chained one segment at a time, use_i18n_scoped!) x counts {0,1,2,5}, plus the const accessor chain for plain literals, plus t! / tu! views built under every other locale and rendered after the context moved to the locale in question, plus td! / t! / tu! views of count-driven keys whose count closure changes its value between building and rendering; context flavours run on a natively created I18nContext whose locale is set before each call; every record must equal the reference rendering (hence all flavours agree pairwise); a second project (en, bn, sv) whose keys carry number formatters (default, never, always, min2, spaced spelling): each of the 9 flavours x 7 values (positive, negative, zero, fractional, i32 / i64 / u8 typed) must equal the direct ICU4X call for the locale; a third project (en, fr, de, bn) with date / time / datetime (default, short and medium lengths) / list / currency formatters read through all 9 flavours against direct ICU4X calls; quick tier thins view flavours under scoping"));
     cov.insert("exhaustive".into(), json!(tier == Tier::Thorough));
     rep.finish(cov, &["tu!/tu_string! read the context untracked: same value, no subscription (subscription is not observable here)"])
 }
